@@ -73,7 +73,7 @@ SkipKinds   == {"dir", "hidden", "fork", "nested", "unsup", "oversize", "symlink
                \cup LinkPrev
 TarOnly     == {"symlink", "hardlink", "chardev", "fifo"} \cup LinkPrev
 BenignNC    == {"plain", "nested", "unicode", "dotslash"}   \* dotslash: ./name, ./dir/name, dir/./name (tar czf x.tgz .)
-HostileNC   == {"absolute", "dotdot", "dotdotIn", "backslash", "drive", "empty", "long", "hostname"}
+HostileNC   == {"absolute", "dslash", "dotdot", "dotdotIn", "backslash", "drive", "empty", "long", "hostname"}
 Classes     == {"InsideTmp", "TmpRootItself", "Outside"}
 Finished    == {"exhausted", "closed", "failed", "collected"}
 
@@ -83,11 +83,11 @@ HasData(m)  == m.kind \in {"doc", "corrupt", "hidden", "fork", "nested", "unsup"
 Written7z(m) == m.kind \in {"doc", "corrupt", "emptyFile"}  \* extractall(members = the entries that passed the filters)
 
 (* sevenzip._safe_join(temp_dir, name) on a POSIX host *)
-SafeJoin(nc) == CASE nc \in {"absolute", "dotdot"} -> "Reject"
+SafeJoin(nc) == CASE nc \in {"absolute", "dslash", "dotdot"} -> "Reject"
                   [] nc = "empty"                  -> "TmpRootItself"
                   [] OTHER                         -> "InsideTmp"
 (* os.path.join(temp_dir, name), resolved *)
-RawJoin(nc)  == CASE nc \in {"absolute", "dotdot"} -> "Outside"
+RawJoin(nc)  == CASE nc \in {"absolute", "dslash", "dotdot"} -> "Outside"
                   [] nc = "empty"                  -> "TmpRootItself"
                   [] OTHER                         -> "InsideTmp"
 WriteFails(nc) == nc \in {"empty", "long"}               \* open(.., "wb"): IsADirectoryError / ENAMETOOLONG
